@@ -647,6 +647,48 @@ Section Eval.
     end.
 End Eval.
 
+(* ---------------------------------------------------------------------- *)
+(* reference for nested link bodies: what each leaf string (value or key) evaluates to on its own, substituted
+   structurally at every depth; the whole is UNRESOLVABLE as soon as one leaf is *)
+Section Nested.
+  Variable rx_ok : str -> bool.
+  Variable rx_extract : str -> str -> option str.
+  Variable cx : ctx.
+
+  Definition ev (s : str) : outcome := eval_str rx_ok rx_extract cx s.
+  Definition evk (k : str) : outcome := key_of (ev k).
+  Definition is_unres_o (o : outcome) : bool := match o with OVal VUnres => true | _ => false end.
+  Definition leaf_value (s : str) : json := match ev s with OVal (VJ j) => j | _ => JNull end.
+  Definition leaf_key (k : str) : str := match evk k with OVal (VJ (JStr s)) => s | _ => [] end.
+  (* the leaf evaluates to a JSON value or to UNRESOLVABLE (no exception, nothing outside the modelled fragment) *)
+  Definition value_ok (s : str) : bool := match ev s with OVal (VJ _) | OVal VUnres => true | _ => false end.
+  Definition key_ok (k : str) : bool := match evk k with OVal (VJ (JStr _)) | OVal VUnres => true | _ => false end.
+
+  Fixpoint leaves_ok (e : json) : bool :=
+    match e with
+    | JStr s => value_ok s
+    | JArr l => forallb leaves_ok l
+    | JObj kvs => forallb (fun kv => key_ok (fst kv) && leaves_ok (snd kv)) kvs
+    | _ => true
+    end.
+
+  Fixpoint has_unres (e : json) : bool :=
+    match e with
+    | JStr s => is_unres_o (ev s)
+    | JArr l => existsb has_unres l
+    | JObj kvs => existsb (fun kv => is_unres_o (evk (fst kv)) || has_unres (snd kv)) kvs
+    | _ => false
+    end.
+
+  Fixpoint subst_nested (e : json) : json :=
+    match e with
+    | JStr s => leaf_value s
+    | JArr l => JArr (map subst_nested l)
+    | JObj kvs => JObj (fold_left (fun acc kv => assoc_set (leaf_key (fst kv)) (subst_nested (snd kv)) acc) kvs [])
+    | other => other
+    end.
+End Nested.
+
 (* get_parameters_value: explicit = the kwarg for the location (None = NOT_SET);
    gen excl = what the strategy for that location draws when the names excl are excluded (foreign) *)
 Definition parameters_value (explicit : option dict) (gen : list str -> option dict) : option dict :=
